@@ -143,6 +143,9 @@ def mkRun (c : Cell) (pc : Mmtk.Fwd.PC) (k : Nat) : Run := { cell := c, sh := ab
 def fwdOp (debug : Bool) (c : Cell) (args : List String) : Cell × String :=
   let bits := (fwdBitsF c).get c
   let twoStep := (oneStepShift c).isNone
+  -- `ObjectReference::from_raw_address_unchecked` debug-asserts a non-zero address: reading a
+  -- forwarding pointer whose address bits are all zero (never written) panics in debug builds
+  let nullRead := debug && (absSh c).ptr == 0
   match args with
   | ["offs"] => (c, withCell c (match oneStepShift c with | some s => s!"some:{s}" | none => "none"))
   | ["status"] => (c, withCell c (toString bits))
@@ -160,11 +163,13 @@ def fwdOp (debug : Bool) (c : Cell) (args : List String) : Cell × String :=
       if b == 2 then
         if bits == 2 then (c, withCell c "would-spin")
         else if bits == 1 then (if debug then (c, "panic:other") else (c, withCell c "orig"))
+        else if bits == 3 && nullRead then (c, "panic:assert")
         else
           let r := runUntil false false isDone 8 (mkRun c .spin 0)
           (r.cell, withCell r.cell r.res)
       else if b == 3 then
         if debug && bits == 0 then (c, "panic:other") else
+        if nullRead then (c, "panic:assert") else
         let r := runUntil false false isDone 8 (mkRun c .readPtr 0)
         (r.cell, withCell r.cell r.res)
       else if b == 0 then (c, withCell c "orig")
@@ -178,7 +183,8 @@ def fwdOp (debug : Bool) (c : Cell) (args : List String) : Cell × String :=
       (r.cell, withCell r.cell r.res)
   | ["clear"] => let c' := (fwdBitsF c).set c 0; (c', withCell c' "-")
   | ["readptr"] =>
-    if debug && bits == 0 then (c, "panic:other") else (c, withCell c (fmtRef c (absSh c).ptr))
+    if debug && bits == 0 then (c, "panic:other") else
+    if nullRead then (c, "panic:assert") else (c, withCell c (fmtRef c (absSh c).ptr))
   | ["writeptr", k] =>
     match num? k with
     | none => (c, "bad-op")
@@ -195,6 +201,7 @@ def fwdOp (debug : Bool) (c : Cell) (args : List String) : Cell × String :=
     | some (immix, k, decline) =>
       if bits == 2 then (c, withCell c "would-spin")
       else if bits == 1 then (if debug then (c, "panic:other") else (c, withCell c "orig q=- copies=0"))
+      else if bits == 3 && nullRead then (c, "panic:assert")
       else
         let r := runUntil immix decline isDone 16 (mkRun c .start k)
         let q := if r.queue.isEmpty then "-" else joinWith "," r.queue
